@@ -114,7 +114,16 @@ func buildEBNF(root bool, n node, seen map[node]bool, p *ebnfp, outp *[]*ebnfp) 
 
 	case *negation:
 		p.out += "~"
+		// ~~x is not valid EBNF, and ~x* reads as (~x)*: a negated negation or a
+		// negated repetition needs parentheses.
+		nested := startsWithNegation(n.node) || endsInModifier(n.node)
+		if nested {
+			p.out += "("
+		}
 		buildEBNF(false, n.node, seen, p, outp)
+		if nested {
+			p.out += ")"
+		}
 
 	case *literal:
 		p.out += fmt.Sprintf("%q", n.s)
@@ -190,4 +199,17 @@ func productionName(t reflect.Type) string {
 		return "Anonymous"
 	}
 	return strings.ToUpper(name[:1]) + name[1:]
+}
+
+// startsWithNegation reports whether the EBNF printed for n starts with "~".
+func startsWithNegation(n node) bool {
+	switch n := n.(type) {
+	case *negation:
+		return true
+	case *group:
+		return startsWithNegation(n.expr)
+	case *capture:
+		return startsWithNegation(n.node)
+	}
+	return false
 }
